@@ -570,6 +570,17 @@ def subscript(I, base, key):
                 return Vec([Vec([x]) for x in base.items], col=True)
             if len(key) == 2 and key[0] is None and key[1] == slice(None, None, None):
                 return Vec([Vec(list(base.items))])
+            if len(key) == 2 and base.items and all(isinstance(r, Vec) for r in base.items):
+                # 2-D array: a[rows, cols] with ints / slices
+                rk, ck = key
+                rows = base.items[rk] if isinstance(rk, slice) else [base.items[concrete_int(rk)]] if _alg(rk) or isinstance(rk, int) else None
+                if rows is not None and (isinstance(ck, slice) or _alg(ck) or isinstance(ck, int)):
+                    if isinstance(ck, slice):
+                        picked = [Vec(r.items[ck]) for r in rows]
+                    else:
+                        j = concrete_int(ck)
+                        picked = [r.items[j] for r in rows]
+                    return Vec(picked) if isinstance(rk, slice) else picked[0]
             raise AnalysisError("array index form")
         if isinstance(key, slice):
             return Vec(base.items[key])
